@@ -270,3 +270,17 @@ CLAIMED.update({
          "note": STD_NOTE + ORDER_NOTE,
          "technique": "static analysis: who-may-call (K2), argument provenance and slot ownership (K8/K11), must-pass-through (K3), evaluation of extracted regions over small domains (K6), store pairing under one guard (K5)"},
 })
+CLAIMED.update({
+ "C09": {"level": "other",
+         "text": "Three structural pillars of cross-thread use of one base. (R1) Static lockset: each of ~200 accesses to the event_base fields shared between the loop and other threads "
+                 "(queues, heap, counters, current_event*, is_notify_pending, loop-control flags, maps, change list, watchers, time cache) lies at a point where th_base_lock is held "
+                 "on every path, by a must-held dataflow per function plus the greatest fixpoint of 'internal function entered only with the lock held' over direct calls, eventop "
+                 "slots and function-pointer arguments (constructors/destructors exempt by closure, one named exception). (R2) Wake-up: with the caller fixed to a foreign thread and "
+                 "the loop running, every outcome of the activation functions that queues a callback and of event_add/del_nolock_ where the backend map reports a changed registration "
+                 "calls evthread_notify_base (all flag values, through the flag machine); the is_notify_pending protocol (set before the notify function runs, skip when pending, "
+                 "cleared only by the drain callbacks). (R3) event_del_nolock_ on every flags x blocking x running x thread x EV_FINALIZE combination waits on current_event_cond "
+                 "exactly as documented, counting itself as a waiter; the loop clears current_event and broadcasts under the lock after every callback. "
+                 "Declined: general data-race freedom on user objects, interleaving semantics, lost-wakeup freedom over schedules.",
+         "note": STD_NOTE + ORDER_NOTE + " The lockset rule is a may-alias-free approximation: it identifies the base by field type, not by instance.",
+         "technique": "static analysis: lockset must-held dataflow with interprocedural entered-held fixpoint (K1 requires), exhaustive evaluation of extracted code over finite domains (K6), must-pass-through (K3), who-may-write (K2)"},
+})
